@@ -110,6 +110,18 @@ Definition sched_ok (c : cfg) (mi : nat) (a : option taction) : Prop :=
                    action_shape (saction st) ta
   end.
 
+(** a machine step never touches the accounting fields of a runtime *)
+Definition same_acct (r r' : mrt) : Prop :=
+  psent r' = psent r /\ nsent r' = nsent r /\ bdur r' = bdur r.
+
+Lemma same_acct_refl : forall r, same_acct r r.
+Proof. unfold same_acct; auto. Qed.
+
+Lemma same_acct_trans : forall r1 r2 r3, same_acct r1 r2 -> same_acct r2 r3 -> same_acct r1 r3.
+Proof. unfold same_acct; intros r1 r2 r3 (A & B & C) (D & E & F). repeat split; congruence. Qed.
+
+Ltac sa := unfold same_acct; cbn; auto.
+
 (** ** the generic preorder lemma *)
 Section Preorder.
   Variable c : cfg.
@@ -120,7 +132,8 @@ Section Preorder.
   Hypothesis R_log : forall mi s e, R mi s (add_log s e).
   Hypothesis R_step : forall mi s, R mi s (add_step s).
   Hypothesis R_pos : forall mi s p, (pos s <= p)%nat -> R mi s (set_pos s p).
-  Hypothesis R_rt : forall mi s r, R mi s (set_rt s mi r).
+  Hypothesis R_rt : forall mi s r r',
+    nth_error (rts s) mi = Some r -> same_acct r r' -> R mi s (set_rt s mi r').
   Hypothesis R_slot : forall mi s a, sched_ok c mi a -> R mi s (set_slot s mi a).
   Hypothesis R_sig : forall mi s g, R mi s (set_sigp s g).
 
@@ -166,32 +179,32 @@ Section Preorder.
     update_counter trans c tp s mi = Ok (s', al, ch) -> R mi s s'.
   Proof.
     unfold update_counter; intros trans s mi s' al ch Htr H.
-    mbind H as m Em. mbind H as r Er. mbind H as st Est.
+    mbind H as m Em. mbind H as r Er. mbind H as st Est. apply get_ok in Er.
     (* counter A *)
     set (XA := match sctr_a st with
                | Some cn => _
                | None => (r, pos s, false)
                end) in H.
-    assert (HA : (pos s <= snd (fst XA))%nat).
-    { subst XA. destruct (sctr_a st) as [cn|]; [|cbn; lia].
+    assert (HA : (pos s <= snd (fst XA))%nat /\ same_acct r (fst (fst XA))).
+    { subst XA. destruct (sctr_a st) as [cn|]; [|cbn; split; [lia|sa]].
       destruct (ccopy cn).
-      - destruct (_ && _); cbn; lia.
+      - destruct (_ && _); cbn; (split; [lia|sa]).
       - destruct (sample_value tp (pos s) cn) as [chg p] eqn:Es. apply sample_value_pos in Es.
-        destruct (_ && _); cbn; lia. }
-    destruct XA as [[rA pA] zA]. cbn in HA.
+        destruct (_ && _); cbn; (split; [lia|sa]). }
+    destruct XA as [[rA pA] zA]. cbn in HA. destruct HA as [HA HAs].
     set (XB := match sctr_b st with
                | Some cn => _
                | None => (rA, pA, false)
                end) in H.
-    assert (HB : (pA <= snd (fst XB))%nat).
-    { subst XB. destruct (sctr_b st) as [cn|]; [|cbn; lia].
+    assert (HB : (pA <= snd (fst XB))%nat /\ same_acct rA (fst (fst XB))).
+    { subst XB. destruct (sctr_b st) as [cn|]; [|cbn; split; [lia|sa]].
       destruct (ccopy cn).
-      - destruct (_ && _); cbn; lia.
+      - destruct (_ && _); cbn; (split; [lia|sa]).
       - destruct (sample_value tp pA cn) as [chg p] eqn:Es. apply sample_value_pos in Es.
-        destruct (_ && _); cbn; lia. }
-    destruct XB as [[rB pB] zB]. cbn in HB.
+        destruct (_ && _); cbn; (split; [lia|sa]). }
+    destruct XB as [[rB pB] zB]. cbn in HB. destruct HB as [HB HBs].
     assert (H0 : R mi s (set_pos (set_rt s mi rB) pB)).
-    { eapply R_trans; [apply R_rt|apply R_pos]. cbn. lia. }
+    { eapply R_trans; [apply (R_rt mi s r rB); [exact Er|eapply same_acct_trans; eauto]|apply R_pos]. cbn. lia. }
     destruct (zA || zB).
     - mbind H as [s2 chg] E2. mbind H as sl Esl. inversion H; subst.
       apply Htr in E2. eapply R_trans; [exact H0|]. eapply R_trans; [apply R_log|exact E2].
@@ -205,14 +218,16 @@ Section Preorder.
     cbn [transition] in H.
     set (s0 := add_step (add_log s (LOG_TRANS, N.of_nat mi, N.of_nat (event_idx ev)))) in H.
     assert (H0 : R mi s s0) by (subst s0; eapply R_trans; [apply R_log|apply R_step]).
-    mbind H as r Er. destruct (cur r =? STATE_END) eqn:Eend; [inversion H; subst; exact H0|].
+    mbind H as r Er. apply get_ok in Er.
+    destruct (cur r =? STATE_END) eqn:Eend; [inversion H; subst; exact H0|].
     mbind H as m Em. mbind H as st Est.
     destruct (sample_state tp (pos s0) st ev) as [nxt p] eqn:Es. apply sample_state_pos in Es.
     assert (H1 : R mi s (set_pos s0 p)) by (eapply R_trans; [exact H0|apply R_pos; exact Es]).
     destruct nxt as [ns|]; [|inversion H; subst; exact H1].
     set (s1 := add_log (set_pos s0 p) (LOG_NEXT, N.of_nat mi, ns)) in H.
     assert (H2 : R mi s s1) by (subst s1; eapply R_trans; [exact H1|apply R_log]).
-    destruct (ns =? STATE_END) eqn:Ens; [inversion H; subst; eapply R_trans; [exact H2|apply R_rt]|].
+    destruct (ns =? STATE_END) eqn:Ens;
+      [inversion H; subst; eapply R_trans; [exact H2|apply (R_rt mi s1 r (rt_set_cur r STATE_END (lim r))); [exact Er|sa]]|].
     destruct (ns =? STATE_SIGNAL) eqn:Esg;
       [inversion H; subst; eapply R_trans; [exact H2|]; eapply R_trans; [apply R_log|apply R_sig]|].
     mbind H as s2 E2.
@@ -222,7 +237,8 @@ Section Preorder.
       destruct (match saction nst with Some a4 => sample_limit tp (pos s1) a4 | None => (STATE_LIMIT_MAX, pos s1) end) as [l q] eqn:El.
       assert (Hq : (pos s1 <= q)%nat).
       { destruct (saction nst); [apply sample_limit_pos in El; exact El|injection El as _ Hq'; rewrite <- Hq'; apply le_n]. }
-      inversion E2; subst. eapply R_trans; [exact H2|]. eapply R_trans; [apply R_rt|apply R_pos]. cbn. exact Hq. }
+      inversion E2; subst. eapply R_trans; [exact H2|].
+      eapply R_trans; [apply (R_rt mi s1 r (rt_set_cur r ns l)); [exact Er|sa]|apply R_pos]. cbn. exact Hq. }
     mbind H as r1 Er1. mbind H as below Ebel. mbind H as [[s5 allow] chg] Euc.
     apply update_counter_R in Euc; [|intros; eapply IH; eassumption].
     mbind H as s6 Esch. mbind H as r2 Er2. inversion H; subst.
@@ -233,10 +249,12 @@ Section Preorder.
   Lemma decrement_limit_R : forall s mi s', decrement_limit c tp s mi = Ok s' -> R mi s s'.
   Proof.
     unfold decrement_limit; intros s mi s' H.
-    mbind H as r0 Er0.
+    mbind H as r0 Er0. apply get_ok in Er0.
     set (r := if 0 <? lim r0 then rt_set_lim r0 (lim r0 - 1) else r0) in H.
     set (s1 := set_rt (add_log s (LOG_DEC, N.of_nat mi, 0)) mi r) in H.
-    assert (H1 : R mi s s1) by (subst s1; eapply R_trans; [apply R_log|apply R_rt]).
+    assert (H1 : R mi s s1).
+    { subst s1; eapply R_trans; [apply R_log|apply (R_rt mi (add_log s (LOG_DEC, N.of_nat mi, 0)) r0 r); [exact Er0|]].
+      subst r. destruct (0 <? lim r0); sa. }
     mbind H as m Em. mbind H as st Est.
     destruct (saction st) as [act|]; [|inversion H; subst; exact H1].
     destruct ((lim r =? 0) && action_has_limit act); [|inversion H; subst; exact H1].
@@ -255,10 +273,8 @@ Section Preorder.
   Qed.
 End Preorder.
 
-(** ** the call-level generic lemma: a preorder preserved by top-level machine
-    steps and by the accounting updates of [process_event] is preserved by
-    [process_event], a whole batch and the signal round *)
-Section CallLevel.
+(** ** loops made only of machine steps *)
+Section StepLoops.
   Variable c : cfg.
   Variable tp : tape.
   Variable G : fstate -> fstate -> Prop.
@@ -268,18 +284,6 @@ Section CallLevel.
   Hypothesis G_dec : forall s mi s', decrement_limit c tp s mi = Ok s' -> G s s'.
   Hypothesis G_log : forall s e, G s (add_log s e).
   Hypothesis G_sig : forall s, G s (set_sigp s None).
-  Hypothesis G_gnorm : forall s, G s (set_gnorm s (gnorm s + 1)).
-  Hypothesis G_gpad : forall s, G s (set_gpad s (gpad s + 1)).
-  Hypothesis G_begin : forall s, bactive s = false -> G s (set_blocking s (gblk s) (now s) true).
-  Hypothesis G_end : forall s g, bactive s = true ->
-    c_add (clk c) (gblk s) (c_since (clk c) (now s) (bstart s)) = Ok g ->
-    G s (set_blocking s g (bstart s) false).
-  Hypothesis G_nsent : forall s mi r, nth_error (rts s) mi = Some r ->
-    G s (set_rt s mi (rt_set_nsent r (nsent r + 1))).
-  Hypothesis G_psent : forall s mi r, nth_error (rts s) mi = Some r ->
-    G s (set_rt s mi (rt_set_psent r (psent r + 1))).
-  Hypothesis G_bdur : forall s mi r b d, nth_error (rts s) mi = Some r ->
-    c_add (clk c) (bdur r) b = Ok d -> G s (set_rt s mi (rt_set_bdur r d)).
 
   Lemma trans_dec_G : forall s mi ev dec s', trans_dec c tp s mi ev dec = Ok s' -> G s s'.
   Proof.
@@ -297,65 +301,12 @@ Section CallLevel.
     - mbind H as [s1 b] E. apply G_step in E. apply IH in H. eapply G_trans; eassumption.
   Qed.
 
-  Lemma normal_sent_all_G : forall k from s s', normal_sent_all c tp k from s = Ok s' -> G s s'.
-  Proof.
-    induction k as [|k IH]; intros from s s' H; cbn [normal_sent_all] in H.
-    - inversion H; subst; apply G_refl.
-    - mbind H as r Er. apply get_ok in Er. mbind H as [s1 b] E. apply G_step in E. apply IH in H.
-      eapply G_trans; [apply G_nsent; exact Er|]. eapply G_trans; eassumption.
-  Qed.
-
   Lemma blocking_begin_all_G : forall target k from s s',
     blocking_begin_all c tp target k from s = Ok s' -> G s s'.
   Proof.
     induction k as [|k IH]; intros from s s' H; cbn [blocking_begin_all] in H.
     - inversion H; subst; apply G_refl.
     - mbind H as s1 E. apply trans_dec_G in E. apply IH in H. eapply G_trans; eassumption.
-  Qed.
-
-  Lemma blocking_end_all_G : forall blocked k from s s',
-    blocking_end_all c tp blocked k from s = Ok s' -> G s s'.
-  Proof.
-    induction k as [|k IH]; intros from s s' H; cbn [blocking_end_all] in H.
-    - inversion H; subst; apply G_refl.
-    - mbind H as r Er. apply get_ok in Er. mbind H as s0 E0. mbind H as [s1 b] E. apply G_step in E.
-      apply IH in H.
-      assert (G s s0).
-      { destruct (negb (blocked =? 0)); [|inversion E0; subst; apply G_refl].
-        mbind E0 as d Ed. inversion E0; subst. eapply G_bdur; eauto. }
-      eapply G_trans; [eassumption|]. eapply G_trans; eassumption.
-  Qed.
-
-  Lemma process_event_G : forall s e s', process_event c tp s e = Ok s' -> G s s'.
-  Proof.
-    unfold process_event; intros s e s' H.
-    destruct e as [ | | | |m| |m| |m|m].
-    - eapply trans_all_G; eauto.
-    - eapply trans_all_G; eauto.
-    - eapply trans_all_G; eauto.
-    - apply normal_sent_all_G in H. eapply G_trans; [apply G_gnorm|exact H].
-    - destruct (N.of_nat (nmach s) <=? m); [inversion H; subst; apply G_gpad|].
-      mbind H as r Er. apply get_ok in Er. apply trans_dec_G in H.
-      eapply G_trans; [apply G_gpad|]. eapply G_trans; [apply G_psent; exact Er|exact H].
-    - eapply trans_all_G; eauto.
-    - apply blocking_begin_all_G in H. destruct (bactive s) eqn:Ea; [exact H|].
-      eapply G_trans; [apply G_begin; exact Ea|exact H].
-    - mbind H as [s0 b] E0. apply blocking_end_all_G in H.
-      assert (G s s0).
-      { destruct (bactive s) eqn:Ea; [|inversion E0; subst; apply G_refl].
-        mbind E0 as g Eg. inversion E0; subst. apply G_end; auto. }
-      eapply G_trans; eassumption.
-    - destruct (N.of_nat (nmach s) <=? m); [inversion H; subst; apply G_refl|].
-      eapply trans_dec_G; eauto.
-    - destruct (N.of_nat (nmach s) <=? m); [inversion H; subst; apply G_refl|].
-      mbind H as [s1 b] E. inversion H; subst. eapply G_step; eauto.
-  Qed.
-
-  Lemma events_G : forall evs s s', foldM (process_event c tp) evs s = Ok s' -> G s s'.
-  Proof.
-    induction evs as [|e evs IH]; intros s s' H; cbn [foldM] in H.
-    - inversion H; subst; apply G_refl.
-    - mbind H as s1 E. apply process_event_G in E. apply IH in H. eapply G_trans; eassumption.
   Qed.
 
   Lemma signal_all_G : forall excluded k from s s',
@@ -385,6 +336,96 @@ Section CallLevel.
     eapply G_trans; [apply G_sig|]. eapply G_trans; [exact E1|].
     eapply G_trans; [eassumption|apply G_sig].
   Qed.
+End StepLoops.
+
+(** ** the call-level generic lemma: a preorder preserved by top-level machine
+    steps and by the accounting updates of [process_event] is preserved by
+    [process_event], a whole batch and the signal round *)
+Section CallLevel.
+  Variable c : cfg.
+  Variable tp : tape.
+  Variable G : fstate -> fstate -> Prop.
+  Hypothesis G_refl : forall s, G s s.
+  Hypothesis G_trans : forall s1 s2 s3, G s1 s2 -> G s2 s3 -> G s1 s3.
+  Hypothesis G_step : forall s mi ev s' b, transition FUEL c tp s mi ev = Ok (s', b) -> G s s'.
+  Hypothesis G_dec : forall s mi s', decrement_limit c tp s mi = Ok s' -> G s s'.
+  Hypothesis G_log : forall s e, G s (add_log s e).
+  Hypothesis G_sig : forall s, G s (set_sigp s None).
+  Hypothesis G_gnorm : forall s, G s (set_gnorm s (gnorm s + 1)).
+  Hypothesis G_gpad : forall s, G s (set_gpad s (gpad s + 1)).
+  Hypothesis G_begin : forall s, bactive s = false -> G s (set_blocking s (gblk s) (now s) true).
+  Hypothesis G_end : forall s g, bactive s = true ->
+    c_add (clk c) (gblk s) (c_since (clk c) (now s) (bstart s)) = Ok g ->
+    G s (set_blocking s g (bstart s) false).
+  Hypothesis G_nsent : forall s mi r, nth_error (rts s) mi = Some r ->
+    G s (set_rt s mi (rt_set_nsent r (nsent r + 1))).
+  Hypothesis G_psent : forall s mi r, nth_error (rts s) mi = Some r ->
+    G s (set_rt s mi (rt_set_psent r (psent r + 1))).
+  Hypothesis G_bdur : forall s mi r b d, nth_error (rts s) mi = Some r ->
+    c_add (clk c) (bdur r) b = Ok d -> G s (set_rt s mi (rt_set_bdur r d)).
+
+  Lemma trans_dec_G' : forall s mi ev dec s', trans_dec c tp s mi ev dec = Ok s' -> G s s'.
+  Proof. apply (trans_dec_G c tp G); auto. Qed.
+  Lemma trans_all_G' : forall ev k from s s', trans_all c tp ev k from s = Ok s' -> G s s'.
+  Proof. apply (trans_all_G c tp G); auto. Qed.
+  Lemma blocking_begin_all_G' : forall target k from s s',
+    blocking_begin_all c tp target k from s = Ok s' -> G s s'.
+  Proof. apply (blocking_begin_all_G c tp G); auto. Qed.
+  Lemma signal_round_G' : forall s s', signal_round c tp s = Ok s' -> G s s'.
+  Proof. apply (signal_round_G c tp G); auto. Qed.
+
+  Lemma normal_sent_all_G : forall k from s s', normal_sent_all c tp k from s = Ok s' -> G s s'.
+  Proof.
+    induction k as [|k IH]; intros from s s' H; cbn [normal_sent_all] in H.
+    - inversion H; subst; apply G_refl.
+    - mbind H as r Er. apply get_ok in Er. mbind H as [s1 b] E. apply G_step in E. apply IH in H.
+      eapply G_trans; [apply G_nsent; exact Er|]. eapply G_trans; eassumption.
+  Qed.
+
+  Lemma blocking_end_all_G : forall blocked k from s s',
+    blocking_end_all c tp blocked k from s = Ok s' -> G s s'.
+  Proof.
+    induction k as [|k IH]; intros from s s' H; cbn [blocking_end_all] in H.
+    - inversion H; subst; apply G_refl.
+    - mbind H as r Er. apply get_ok in Er. mbind H as s0 E0. mbind H as [s1 b] E. apply G_step in E.
+      apply IH in H.
+      assert (G s s0).
+      { destruct (negb (blocked =? 0)); [|inversion E0; subst; apply G_refl].
+        mbind E0 as d Ed. inversion E0; subst. eapply G_bdur; eauto. }
+      eapply G_trans; [eassumption|]. eapply G_trans; eassumption.
+  Qed.
+
+  Lemma process_event_G : forall s e s', process_event c tp s e = Ok s' -> G s s'.
+  Proof.
+    unfold process_event; intros s e s' H.
+    destruct e as [ | | | |m| |m| |m|m].
+    - eapply trans_all_G'; eauto.
+    - eapply trans_all_G'; eauto.
+    - eapply trans_all_G'; eauto.
+    - apply normal_sent_all_G in H. eapply G_trans; [apply G_gnorm|exact H].
+    - destruct (N.of_nat (nmach s) <=? m); [inversion H; subst; apply G_gpad|].
+      mbind H as r Er. apply get_ok in Er. apply trans_dec_G' in H.
+      eapply G_trans; [apply G_gpad|]. eapply G_trans; [apply G_psent; exact Er|exact H].
+    - eapply trans_all_G'; eauto.
+    - apply blocking_begin_all_G' in H. destruct (bactive s) eqn:Ea; [exact H|].
+      eapply G_trans; [apply G_begin; exact Ea|exact H].
+    - mbind H as [s0 b] E0. apply blocking_end_all_G in H.
+      assert (G s s0).
+      { destruct (bactive s) eqn:Ea; [|inversion E0; subst; apply G_refl].
+        mbind E0 as g Eg. inversion E0; subst. apply G_end; auto. }
+      eapply G_trans; eassumption.
+    - destruct (N.of_nat (nmach s) <=? m); [inversion H; subst; apply G_refl|].
+      eapply trans_dec_G'; eauto.
+    - destruct (N.of_nat (nmach s) <=? m); [inversion H; subst; apply G_refl|].
+      mbind H as [s1 b] E. inversion H; subst. eapply G_step; eauto.
+  Qed.
+
+  Lemma events_G : forall evs s s', foldM (process_event c tp) evs s = Ok s' -> G s s'.
+  Proof.
+    induction evs as [|e evs IH]; intros s s' H; cbn [foldM] in H.
+    - inversion H; subst; apply G_refl.
+    - mbind H as s1 E. apply process_event_G in E. apply IH in H. eapply G_trans; eassumption.
+  Qed.
 
   Lemma trigger_events_G : forall s evs t s' acts,
     trigger_events c tp s evs t = Ok (s', acts) ->
@@ -392,7 +433,7 @@ Section CallLevel.
   Proof.
     unfold trigger_events; intros s evs t s' acts H.
     mbind H as s1 E1. mbind H as s2 E2. inversion H; subst.
-    apply events_G in E1. apply signal_round_G in E2. split; [|reflexivity].
+    apply events_G in E1. apply signal_round_G' in E2. split; [|reflexivity].
     eapply G_trans; eassumption.
   Qed.
 End CallLevel.
